@@ -5,6 +5,7 @@
 -/
 import Masscanned.Spec.Wire
 import Masscanned.Spec.L4
+import Masscanned.Spec.Icmp
 import Masscanned.Model.SipHash
 namespace Masscanned.Spec
 open Masscanned
@@ -155,5 +156,25 @@ def judgeC05arp (cfg : Cfg) (f : Bytes) (r : Option Bytes) : Option Verdict :=
   else if isArp f ∧ be16 f 20 = 1 ∧ !handled cfg (.v4 (sub f 38 4)) then
     some (if r.isNone then pass true else failv "ARP request for an unhandled address answered")
   else none
+
+def judgeC05 (cfg : Cfg) (f : Bytes) (r : Option Bytes) : Verdict :=
+  match judgeC05arp cfg f r with
+  | some v => v
+  | none =>
+    let must (ok : Bytes → Bool) (what : String) : Verdict :=
+      match r with
+      | some r => if ok r then pass true else failv (what ++ ": reply fields wrong")
+      | none => failv (what ++ ": not answered")
+    let silent (what : String) : Verdict :=
+      if r.isNone then pass true else failv (what ++ ": answered")
+    if echo4Request cfg f then must (echo4ReplyOk f) "ICMPv4 echo request"
+    else if icmp4Other cfg f then silent "ICMPv4 message other than a code-0 echo request"
+    else if echo6Request cfg f then must (echo6ReplyOk f) "ICMPv6 echo request"
+    else if nsRequest cfg f then must (naReplyOk cfg f) "Neighbour Solicitation for a handled target"
+    else if icmp6Other cfg f then silent "ICMPv6 message other than code-0 echo request / NS"
+    else if deliverable cfg f true 58 4 then
+      -- code-0 echo to an unhandled address, code-0 NS for an unhandled target or shorter than 24 bytes
+      silent "ICMPv6 echo/NS outside the handled addresses"
+    else pass false
 
 end Masscanned.Spec
